@@ -41,6 +41,19 @@ MUTANTS = [
      "        _detach_handles(self.__posthook_handle)\n        self.__prehook_handle = None"),
     ("clamp_min_only_when_both", "C16", 3000, "inferno/neural/hooks.py",
      "                min=self.clampmin,\n                max=self.clampmax,", "                min=self.clampmin,\n                max=(self.clampmax if self.clampmin is None or self.clampmax >= 1 else None),"),
+    ("fold_clear_forgets_initial", "C07", 3000, "inferno/observe/reducers/base.py",
+     "            self.data_.deinitialize(False)\n        self._initial = True", "            self.data_.deinitialize(False)\n            self._initial = True"),
+    ("dump_no_flip", "C07", 3000, "inferno/observe/reducers/base.py",
+     "            return self.data_.value.flip(0)", "            return self.data_.value.roll(1, 0).flip(0)"),
+    ("event_interp_uses_newer", "C07", 3000, "inferno/observe/reducers/general.py",
+     "        return prev_data + sample_at", "        return next_data + sample_at"),
+    ("ca_clear_keeps_count", "C07", 3000, "inferno/observe/reducers/stats.py",
+     "        self._count = 0\n        FoldReducer.clear", "        FoldReducer.clear"),
+    ("trace_nearest_initial_ignores_amp_sign", "C07", 3000, "inferno/core/trace.py",
+     "    if trace is None:\n        return amplitude * mask.to(dtype=observation.dtype)\n    else:\n        return torch.where(mask, amplitude, decay * trace)",
+     "    if trace is None:\n        return abs(amplitude) * mask.to(dtype=observation.dtype)\n    else:\n        return torch.where(mask, amplitude, decay * trace)"),
+    ("trace_cum_scaled_decays_new", "C07", 3000, "inferno/core/trace.py",
+     "        return (decay * trace) + (scale * observation + amplitude) * mask", "        return decay * (trace + (scale * observation + amplitude) * mask)"),
     ("resize_keeps_head", "C13", 3000, INFRA,
      "            slices[dim] = slice(tensor.shape[dim] - size, None)\n            return tensor[*slices]", "            slices[dim] = slice(None, size)\n            return tensor[*slices]"),
     ("resize_no_align", "C13", 3000, INFRA,
